@@ -189,6 +189,9 @@ def probes(r, cfg):
             out.append(('C17', f'reads-back/{type(s).__name__}', f'{sid}: wrote {v}, read {str(b)[:60]}'))
     if fam in ('ET', 'DT'):
         wr('grid_export_limit', 4321 if fam == 'ET' or cfg['tag'] != 'DTU' else 77)
+        for sid in sorted(set(ids) & set(inv._settings)):      # ids that are both a sensor and a setting
+            if type(inv._settings[sid]).__name__ == 'Integer':
+                wr(sid, 3)
     if fam in ('ET', 'ES'):
         wr('eco_mode_3_switch', -1)
         wr('eco_mode_3', group_bytes(inv, 'charge'))
